@@ -47,7 +47,16 @@ var ErrTemporary net.Error = tempErr{}
 
 type Addr struct{ C *Conn }
 
-func (a *Addr) Network() string { return "mem" }
+func (a *Addr) Network() string {
+	if UnixNet.Load() {
+		return "unix" // the connection claims to be one of a unix-domain socket listener
+	}
+	return "mem"
+}
+
+// UnixNet makes the addresses of all connections report the network "unix".
+var UnixNet atomic.Bool
+
 func (a *Addr) String() string {
 	if AnonAddrs.Load() {
 		return "@" // what every peer of a unix-domain socket reports: addresses do not tell connections apart
@@ -362,8 +371,20 @@ func (c *Conn) Close() error {
 	return c.CloseErr
 }
 
-func (c *Conn) LocalAddr() net.Addr  { return &Addr{C: c} }
-func (c *Conn) RemoteAddr() net.Addr { return c.addr }
+func (c *Conn) LocalAddr() net.Addr { return &Addr{C: c} }
+func (c *Conn) RemoteAddr() net.Addr {
+	if LoopbackAddrs.Load() {
+		// what a connection accepted from a local TCP peer reports (the port stands for the connection)
+		loopback.Store(int(c.ID), c)
+		return &net.TCPAddr{IP: net.IPv4(127, 0, 0, 1), Port: int(c.ID)}
+	}
+	return c.addr
+}
+
+// LoopbackAddrs makes connections report a *net.TCPAddr on the loopback interface as their remote address
+// (FromAddr still finds the connection).
+var LoopbackAddrs atomic.Bool
+var loopback sync.Map
 
 // Deadlines behave like those of a TCP connection (the pinned tree sets none; a tree that uses
 // them - idle timeouts, interrupting blocked reads on shutdown - must not look wedged here).
@@ -794,6 +815,11 @@ func (c *Conn) SrvHalfClosed() bool {
 func FromAddr(a net.Addr) *Conn {
 	if ad, ok := a.(*Addr); ok {
 		return ad.C
+	}
+	if ta, ok := a.(*net.TCPAddr); ok && ta.IP.IsLoopback() {
+		if c, ok := loopback.Load(ta.Port); ok {
+			return c.(*Conn)
+		}
 	}
 	return nil
 }
